@@ -22,6 +22,14 @@ the other programme; `fork` builds a second programme whose start_* arguments ar
 containers; `setwork` assigns the stored containers to the working attributes (`prog.genome = prog.start_genome`).
 The reference interpreter gives all of these value semantics: the stored initial state is the *content* the
 containers had when the setter / constructor was called, and every later replicate starts from exactly that.
+
+Counts and clock values (nrep / ngen of evolve, ngen of advance, t_max of the constructor, t_cur through its setter)
+are handed over in several integral *forms* (`case["forms"]`, `case["t_max_form"]`): built-in int, numpy integer scalars
+of several widths, 0-d integer arrays, bool for 0 / 1.  The reference interpreter only ever sees their integer value.
+A form that the programme refuses with a TypeError / ValueError before any operator or logbook call is labelled and the
+call is repeated with the built-in int (so the rest of the history is still checked).  `ngen=None` (documented: "use
+t_max"; raises on the unchanged tree) is tried as the last command of some histories: a TypeError ends the history there
+(only the part before it is compared), a normal return must have run t_max generations per replicate.
 """
 import copy
 import itertools
@@ -51,11 +59,49 @@ ASSUMPTIONS = [
     "(own or another programme's; after setstart-from-working / fork / setwork), `advance` is not called on it: an in-place "
     "operator would then legitimately edit the stored state through the alias the caller created.  `evolve` (which resets "
     "first) is called, and must leave the stored objects alone",
+    "a count (nrep, ngen) or clock value (t_max, t_cur) may be any integral form the programme accepts (built-in int, numpy "
+    "integer scalar, 0-d integer array, bool for 0/1); what counts is its integer value.  A form refused with TypeError / "
+    "ValueError before any operator or logbook call is not a violation (the call is repeated with the built-in int)",
+    "`evolve(ngen=None)` (documented: use t_max) may raise TypeError / ValueError -- the history then ends before that call -- "
+    "or must run t_max generations per replicate; it is only issued as the last command of a history",
 ]
 
 NAMES = ("genome", "geno", "pheno", "bval", "gmod")
 BEHAVIOURS = ("pure", "same", "inplace", "mutnew")
 INPLACE_VARIANTS = ("all", "addkey", "overwrite", "clear")
+
+# integral forms in which a count / clock value is handed to the programme
+SCALAR_FORMS = ("int64", "int32", "int16", "int8", "uint8", "uint16", "uint64", "intp")
+ARRAY_FORMS = ("arr0d_int64", "arr0d_int32", "arr0d_uint8")
+COUNT_FORMS = ("int",) + SCALAR_FORMS + ARRAY_FORMS + ("bool",)
+
+
+def resolve_form(form, v):
+    """the form actually used for the value v ("bool" only carries 0 / 1; unknown names mean built-in int)"""
+    if form == "bool":
+        return "bool" if v in (0, 1) else "int"
+    return form if form in COUNT_FORMS else "int"
+
+
+def make_count(form, v):
+    if form == "int":
+        return int(v)
+    if form == "bool":
+        return bool(v)
+    if form in SCALAR_FORMS:
+        return numpy.dtype(form).type(v)
+    if form in ARRAY_FORMS:
+        return numpy.array(v, dtype=form[len("arr0d_"):])
+    raise AssertionError(form)
+
+
+def as_int(v):
+    """integer value of a clock value an operator was handed (anything non-integral is kept as a marker string)"""
+    if isinstance(v, (bool, int, numpy.integer, numpy.bool_)):
+        return int(v)
+    if isinstance(v, numpy.ndarray) and v.ndim == 0 and v.dtype.kind in "iub":
+        return int(v)
+    return "non-integral:%r" % (v,)
 
 
 # ------------------------------------------------------------------------------------------------------
@@ -190,7 +236,7 @@ class Recorder:
         tok = self.next_token()
         for c in cs:
             mutables(c, self.keepalive)
-        rec = {"kind": kind, "prog": prog, "rep": self.lbook.rep, "t_cur": t_cur, "t_max": t_max, "recv": fp5(cs),
+        rec = {"kind": kind, "prog": prog, "rep": self.lbook.rep, "t_cur": as_int(t_cur), "t_max": as_int(t_max), "recv": fp5(cs),
                "miscout_in": fp(miscout), "extra_kwargs": sorted(extra_kwargs)}
         if kind == "mate":
             rec["mcfg"] = fp(mcfg)
@@ -203,7 +249,7 @@ class Recorder:
     def log_call(self, kind, cs, t_cur, t_max, kw, mcfg=None):
         for c in cs:
             mutables(c, self.keepalive)
-        rec = {"kind": kind, "rep": self.lbook.rep, "t_cur": t_cur, "t_max": t_max, "recv": fp5(cs),
+        rec = {"kind": kind, "rep": self.lbook.rep, "t_cur": as_int(t_cur), "t_max": as_int(t_max), "recv": fp5(cs),
                "misc": fp(kw)}
         if kind == "log_psel":
             rec["mcfg"] = fp(mcfg)
@@ -326,26 +372,47 @@ def _mask_idx(mask):
 def plan(case):
     """Resolves the raw script into the list of commands that are carried out.
 
-    evolve   ["evolve", nrep, ngen, loginit, p=0]
+    evolve   ["evolve", nrep, ngen, loginit, p=0]   ngen None (= "use t_max") only as the very last command; elsewhere it is
+                                                    replaced by the integer t_max by the harness
     advance  ["advance", ngen, p=0]                  needs a working state; not while the working containers are somebody's
                                                     stored initial state (see ASSUMPTIONS)
+    setclock ["setclock", value, p]                 prog_p.t_cur = value through the public setter; under the same conditions
+                                                    as advance (it only matters to a following advance: evolve resets the clock)
     setstart ["setstart", src, mask, p, k]          prog_p.start_X = ... for the X in mask, through the public setters;
                                                     src "work": prog_p's own working containers, "other": the other
                                                     programme's working containers, "fresh": extra_states[k] built anew
     setwork  ["setwork", mask, p]                   prog_p.X = prog_p.start_X for the X in mask
     fork     ["fork"]                               second programme (own operator instances, same logbook) constructed with
                                                     start_* = the first programme's five working containers
+
+    Every count / clock argument of a command that is carried out takes the next entry of case["forms"] (cyclically; absent
+    or empty = built-in int) as the form in which it is handed over; the resolved form names are appended to the planned
+    command (evolve: nrep form, ngen form; advance / setclock: one form).
     """
+    forms = case.get("forms") or []
+    nform = [0]
+
+    def form_for(v):
+        if v is None:
+            return "none"
+        f = resolve_form(forms[nform[0] % len(forms)], v) if forms else "int"
+        nform[0] += 1
+        return f
+
+    nraw = len(case["script"])
     nextra = len(case.get("extra_states") or [])
     ini = [case["init"] == "given"]     # per programme: start_* are set
     have = [False]                      # per programme: has a complete working state
     alias = [False]                     # per programme: its working containers are (possibly) a stored initial state
     out = []
-    for cmd in case["script"]:
+    for ci, cmd in enumerate(case["script"]):
         op = cmd[0]
         if op == "evolve":
             p = (cmd[4] if len(cmd) > 4 else 0) % len(ini)
-            out.append(["evolve", p, cmd[1], cmd[2], bool(cmd[3]), not ini[p]])
+            ngen = cmd[2]
+            if ngen is None and ci != nraw - 1:
+                ngen = case["t_max"]
+            out.append(["evolve", p, cmd[1], ngen, bool(cmd[3]), not ini[p], form_for(cmd[1]), form_for(ngen)])
             ini[p] = True
             if cmd[1] >= 1:
                 have[p] = True
@@ -353,7 +420,11 @@ def plan(case):
         elif op == "advance":
             p = (cmd[2] if len(cmd) > 2 else 0) % len(ini)
             if have[p] and not alias[p]:
-                out.append(["advance", p, cmd[1]])
+                out.append(["advance", p, cmd[1], form_for(cmd[1])])
+        elif op == "setclock":
+            p = cmd[2] % len(ini)
+            if have[p] and not alias[p]:
+                out.append(["setclock", p, cmd[1], form_for(cmd[1])])
         elif op == "setstart":
             _, src, mask, p, k = cmd
             p %= len(ini)
@@ -441,7 +512,9 @@ def ref_run(case):
 
     for cmd in plan(case):
         if cmd[0] == "evolve":
-            _, p, nrep, ngen, loginit, needs_init = cmd
+            _, p, nrep, ngen, loginit, needs_init = cmd[:6]
+            if ngen is None:
+                ngen = t_max                    # the documented default
             cur = progs[p]
             if needs_init:
                 ninit[0] += 1
@@ -458,6 +531,8 @@ def ref_run(case):
                 generations(p, ngen)
         elif cmd[0] == "advance":
             generations(cmd[1], cmd[2])
+        elif cmd[0] == "setclock":
+            progs[cmd[1]]["t"] = cmd[2]
         elif cmd[0] == "setstart":
             _, p, src, idx, k = cmd
             new = list(initial[p])
@@ -509,6 +584,19 @@ def _selftest():
     assert [r["prog"] for r in tr] == [0, 0, 0, 1] and [r["t_cur"] for r in tr] == [0] * 4
     assert ini == [fp5([s1] * 5), fp5([s2] * 5)] and rep == 4
 
+    # forms never reach the reference interpreter; ngen=None as the last command means t_max generations
+    case = dict(case, t_max=3, forms=["int64", "bool", "arr0d_int32"],
+                script=[["evolve", 1, 2, False], ["setclock", 6, 0], ["advance", 1, 0], ["evolve", 2, None, False]])
+    cmds = plan(case)
+    assert [c[-2:] for c in cmds if c[0] == "evolve"] == [["int64", "int"], ["int", "none"]], cmds
+    assert [c[-1] for c in cmds if c[0] != "evolve"] == ["arr0d_int32", "int64"], cmds
+    tr, progs, rep, ini = ref_run(case)
+    assert [r["t_cur"] for r in tr if r["kind"] == "psel"] == [1, 2, 6, 1, 2, 3, 1, 2, 3] and progs[0]["t"] == 4 and rep == 3
+    assert ref_run(dict(case, forms=[]))[0] == tr
+    assert type(make_count("arr0d_uint8", 3)) is numpy.ndarray and make_count("bool", 1) is True
+    assert as_int(numpy.array(3, dtype="uint8")) == 3 and as_int(True) == 1 and as_int(numpy.int16(2)) == 2
+    assert isinstance(as_int(2.0), str) and isinstance(as_int(numpy.array([2])), str)
+
 
 _selftest()
 
@@ -541,7 +629,7 @@ def run_check(case, ctx):
     beh = case["behaviours"]
     evs = [c for c in cmds if c[0] == "evolve"]
     nrep_tot = sum(c[2] for c in evs)
-    ngen_max = max([c[3] for c in evs] + [0])
+    ngen_max = max([case["t_max"] if c[3] is None else c[3] for c in evs] + [0])
     mutating = [k for k in ("psel", "mate", "eval", "ssel") if beh[k] in ("inplace", "mutnew")]
     ctx.label("nrep=0", nrep_tot == 0)
     ctx.label("ngen=0", ngen_max == 0)
@@ -556,7 +644,23 @@ def run_check(case, ctx):
     for k in mutating:
         if beh[k] == "inplace":
             ctx.label("inplace_variant_%s" % case["variants"][k])
-    first_evolve_two_reps = any(c[2] >= 2 and c[3] >= 1 for c in evs)
+    first_evolve_two_reps = any(c[2] >= 2 and (case["t_max"] if c[3] is None else c[3]) >= 1 for c in evs)
+    # forms of the counts: which argument carries which form, and whether the generation count differs from t_max
+    for c in cmds:
+        if c[0] == "evolve":
+            ctx.label("form_nrep_%s" % c[6], c[6] != "int")
+            ctx.label("form_ngen_%s" % c[7], c[7] != "int")
+            ctx.label("evolve_ngen_not_int_and_differs_from_t_max",
+                      c[7] not in ("int", "none") and c[3] != case["t_max"] and c[2] >= 1)
+            ctx.label("evolve_nrep_not_int", c[6] != "int" and c[2] >= 1)
+        elif c[0] == "advance":
+            ctx.label("form_advance_ngen_%s" % c[3], c[3] != "int")
+            ctx.label("advance_ngen_not_int", c[3] != "int" and c[2] >= 1)
+        elif c[0] == "setclock":
+            ctx.label("setclock_effective")
+    ctx.label("all_counts_builtin_int", all(f == "int" for c in cmds if c[0] in ("evolve", "advance") for f in c[6 if c[0] == "evolve" else 3:]))
+    t_max_form = resolve_form(case.get("t_max_form") or "int", case["t_max"])
+    ctx.label("t_max_form_%s" % t_max_form, t_max_form != "int")
     ctx.nontrivial((nrep_tot >= 2) and ngen_max >= 1 and bool(mutating))
     ctx.label("rule_nontrivial_single_evolve", first_evolve_two_reps and bool(mutating))
     # histories in which containers the programme has worked on are (or were made) the stored initial state and a
@@ -593,9 +697,29 @@ def run_check(case, ctx):
 
     def make_prog(tag, containers):
         kw = {} if containers is None else {"start_" + n: c for n, c in zip(NAMES, containers)}
-        return RecurrentSelectionBreedingProgram(
-            initop=initop, pselop=PselOp(rec, tag), mateop=MateOp(rec, tag), evalop=EvalOp(rec, tag),
-            sselop=SselOp(rec, tag), t_max=case["t_max"], **kw)
+        ops = dict(initop=initop, pselop=PselOp(rec, tag), mateop=MateOp(rec, tag), evalop=EvalOp(rec, tag),
+                   sselop=SselOp(rec, tag))
+        if t_max_form != "int":
+            try:
+                return RecurrentSelectionBreedingProgram(t_max=make_count(t_max_form, case["t_max"]), **ops, **kw)
+            except (TypeError, ValueError):
+                ctx.label("refused_t_max_form_%s" % t_max_form)     # nothing has run yet: use the built-in int instead
+        return RecurrentSelectionBreedingProgram(t_max=case["t_max"], **ops, **kw)
+
+    def with_forms(what, call, values, fms):
+        """call(*counts) with the counts in the planned forms.  A form refused with TypeError / ValueError before any
+        operator (other than the initialisation operator) or the logbook was touched is labelled and the call repeated with
+        built-in ints; an exception after that point is not a clean refusal and escapes."""
+        if all(f == "int" for f in fms):
+            return call(*values)
+        i0, h0 = len(rec.trace), len(book.rep_history)
+        try:
+            return call(*[make_count(f, v) for f, v in zip(fms, values)])
+        except (TypeError, ValueError):
+            if len(book.rep_history) != h0 or any(r["kind"] != "init" for r in rec.trace[i0:]):
+                raise
+            ctx.label("refused_%s_form_%s" % (what, "+".join(f for f in fms if f != "int")))
+        return call(*values)
 
     given = None
     if case["init"] == "given":
@@ -617,15 +741,37 @@ def run_check(case, ctx):
                                   "were stored:\n got %s\n want %s" % (q, after, fp5(st_), stored_fp[q]))
 
     # ---- run ----------------------------------------------------------------------------------------------------
+    ngen_none_refused = None         # programme whose final evolve(ngen=None) raised TypeError / ValueError
     for cmd in cmds:
         if cmd[0] == "evolve":
-            _, p, nrep, ngen, loginit, _ni = cmd
+            _, p, nrep, ngen, loginit, _ni, f_nrep, f_ngen = cmd
             i0 = len(rec.trace)
-            progs[p].evolve(nrep=nrep, ngen=ngen, lbook=book, loginit=loginit)
+            if ngen is None:
+                # documented default ("If None, use 't_max'").  Always the last command of the history.
+                h0, r0 = len(book.rep_history), book._rep
+                try:
+                    progs[p].evolve(nrep=make_count(f_nrep, nrep), ngen=None, lbook=book, loginit=loginit)
+                except (TypeError, ValueError):
+                    # refused (possibly part-way through the first replicate): the history ends before this command
+                    ctx.label("ngen_none_refused")
+                    ngen_none_refused = p
+                    del rec.trace[i0:]
+                    del book.rep_history[h0:]
+                    book._rep = r0
+                    stored_state_untouched("%s (refused)" % cmd[:2])
+                    break
+                ctx.label("ngen_none_accepted")
+            else:
+                with_forms("evolve", lambda a, b: progs[p].evolve(nrep=a, ngen=b, lbook=book, loginit=loginit),
+                           [nrep, ngen], [f_nrep, f_ngen])
             runs.append((p, i0, len(rec.trace), list(stored_fp[p])))
             evolved[p] = True
         elif cmd[0] == "advance":
-            progs[cmd[1]].advance(ngen=cmd[2], lbook=book)
+            with_forms("advance", lambda a: progs[cmd[1]].advance(ngen=a, lbook=book), [cmd[2]], [cmd[3]])
+        elif cmd[0] == "setclock":
+            def _set(a):
+                progs[cmd[1]].t_cur = a
+            with_forms("t_cur", _set, [cmd[2]], [cmd[3]])
         elif cmd[0] == "setstart":
             _, p, src, idx, k = cmd
             for i in idx:
@@ -653,6 +799,10 @@ def run_check(case, ctx):
         stored_state_untouched("%s" % cmd[:2])
 
     # ---- reference ---------------------------------------------------------------------------------------------
+    if ngen_none_refused is not None:
+        case = dict(case, script=case["script"][:-1])       # plan() consumes forms in order: the prefix plans identically
+        assert plan(case) == cmds[:-1]
+        nrep_tot = sum(c[2] for c in cmds[:-1] if c[0] == "evolve")
     exp, ref_progs, exp_rep, _ = ref_run(case)
     got = rec.trace
 
@@ -729,7 +879,7 @@ def run_check(case, ctx):
     # ---- final working state and clock --------------------------------------------------------------------------
     for p, prog in enumerate(progs):
         cur = ref_progs[p]
-        if cur["state"] is not None:
+        if cur["state"] is not None and p != ngen_none_refused:
             final = [prog.genome, prog.geno, prog.pheno, prog.bval, prog.gmod]
             ctx.check(fp5(final) == fp5(cur["state"]), "final.working_state_is_last_returned",
                       lambda: "programme %d: got %s\nwant %s" % (p, fp5(final), fp5(cur["state"])))
@@ -828,12 +978,72 @@ def random_case(draw):
             script.append(["setwork", draw(_mask), p])
         else:
             script.append(["fork"])
+    # the forms in which counts / clock values are handed over: two cases in five keep built-in ints throughout
+    fkind = draw(st.sampled_from(["int", "mixed", "int", "one", "mixed"]))
+    forms = []
+    if fkind == "one":
+        forms = [draw(st.sampled_from(COUNT_FORMS[1:]))]
+    elif fkind == "mixed":
+        forms = draw(st.lists(st.sampled_from(COUNT_FORMS + SCALAR_FORMS[:2] + ARRAY_FORMS[:1]), min_size=2, max_size=5))
+    t_max_form = draw(st.sampled_from(["int"] * 6 + ["bool", "int64", "arr0d_int64", "uint8"]))
+    if fkind != "int":
+        # the clock set through its public setter before an advance; the documented ngen=None at the very end
+        if draw(st.sampled_from([True, False, False])):
+            j = draw(st.integers(1, len(script)))
+            q = draw(st.integers(0, 1)) if rich else 0
+            script[j:j] = [["setclock", draw(st.integers(0, 12)), q], ["advance", draw(st.integers(0, 3)), q]]
+        if draw(st.sampled_from([True, False, False, False])):
+            script.append(["evolve", draw(st.sampled_from([1, 2, 0, 3])), None, draw(st.booleans()), draw(st.integers(0, 1)) if rich else 0])
     case = {"state": state, "init": draw(st.sampled_from(["given", "given", "initop"])),
             "rep0": draw(st.sampled_from([0, 0, 1, 7, -3])), "t_max": draw(st.integers(0, 9)),
             "behaviours": beh, "variants": var, "script": script}
     if rich:
         case["extra_states"] = extra
+    if forms:
+        case["forms"] = forms
+    if t_max_form != "int":
+        case["t_max_form"] = t_max_form
     return case
+
+
+# finite block for the forms of counts: every form in every count position, generation counts below / equal to / above t_max
+COUNT_SCRIPTS = [
+    # (script, t_max)
+    ([["evolve", 2, 3, True]], 7),
+    ([["evolve", 1, 5, False]], 2),
+    ([["evolve", 3, 0, True]], 4),
+    ([["evolve", 1, 1, True]], 1),
+    ([["evolve", 0, 1, True], ["evolve", 1, 0, False], ["advance", 2]], 5),
+    ([["evolve", 1, 1, True], ["advance", 1], ["setclock", 9, 0], ["advance", 2], ["evolve", 2, 2, False]], 3),
+    ([["evolve", 1, 0, False], ["setclock", 1, 0], ["advance", 0], ["setclock", 0, 0], ["advance", 1], ["evolve", 1, 1, True]], 0),
+    ([["evolve", 2, 1, True], ["evolve", 2, None, True]], 3),
+    ([["evolve", 1, 2, False], ["evolve", 0, None, True]], 2),
+    ([["evolve", 1, None, True]], 0),
+]
+_COUNT_BEHAVIOURS = [("pure",) * 4, ("inplace",) * 4, ("same", "mutnew", "inplace", "pure"), ("mutnew", "inplace", "same", "inplace")]
+
+
+def countform_cases(tier):
+    out = []
+    rot = COUNT_FORMS[1:]
+    for si, (script, t_max) in enumerate(COUNT_SCRIPTS):
+        for fi, form in enumerate(COUNT_FORMS):
+            # the form in every count position; only on replicate counts; only on generation counts; rotating through all
+            layouts = [[form], [form, "int"], ["int", form], [rot[(fi + j) % len(rot)] for j in range(5)]]
+            if form == "int":
+                layouts = layouts[:1]
+            for li, forms in enumerate(layouts):
+                for bi, combo in enumerate(_COUNT_BEHAVIOURS):
+                    if tier == "quick" and (si + fi + li + bi) % 2:
+                        continue
+                    out.append({
+                        "state": FIXED_STATE, "init": "initop" if (si + fi + bi) % 3 == 0 else "given", "rep0": bi - 1,
+                        "t_max": t_max, "t_max_form": COUNT_FORMS[(fi + li) % len(COUNT_FORMS)] if li == 3 else "int",
+                        "behaviours": dict(zip(("psel", "mate", "eval", "ssel"), combo)),
+                        "variants": {k: INPLACE_VARIANTS[(bi + j) % 4] for j, k in enumerate(("psel", "mate", "eval", "ssel"))},
+                        "script": script, "forms": forms,
+                    })
+    return out
 
 
 # finite block for histories that feed working containers back as a stored initial state (or the reverse)
@@ -903,17 +1113,35 @@ SUBCHECKS = [
              required_labels=("reset_while_working_containers_are_a_stored_start", "second_programme_evolved",
                               "setstart_work", "setstart_other", "setstart_fresh", "setstart_partial", "setwork_from_start",
                               "second_programme_from_working_containers", "advance_effective", "init_by_operator")),
+    SubCheck("countforms", run_check, cases=countform_cases, shards_quick=2, shards_thorough=4,
+             rule="finite: 10 fixed plain histories (evolve / advance, the clock set through its setter before an advance, "
+                  "evolve(ngen=None) as the last command; generation counts below, equal to and above t_max, zero counts) x "
+                  "13 integral forms of the counts (built-in int, numpy int64/int32/int16/int8/uint8/uint16/uint64/intp "
+                  "scalars, 0-d int64/int32/uint8 arrays, bool for 0/1) x 4 layouts (every count, replicate counts only, "
+                  "generation counts only, rotating through all forms + t_max in that form) x 4 behaviour combinations "
+                  "(every second one in the quick tier); the reference interpreter sees integer values only; "
+                  "non-trivial = >=2 replicates in total, ngen>=1 and at least one operator mutating in place",
+             required_labels=("evolve_ngen_not_int_and_differs_from_t_max", "evolve_nrep_not_int", "advance_ngen_not_int",
+                              "form_ngen_int64", "form_ngen_int32", "form_ngen_uint8", "form_ngen_intp",
+                              "form_ngen_arr0d_int64", "form_ngen_bool", "form_nrep_int64", "form_nrep_arr0d_int32",
+                              "form_nrep_bool", "form_advance_ngen_int16", "setclock_effective", "t_max_form_bool",
+                              "all_counts_builtin_int", "init_by_operator")),
     SubCheck("random", run_check, random_case(), quick=600, thorough=4000, shards_quick=4, shards_thorough=16,
              rule="generated: half plain scripts of 1-3 evolve(nrep 0-4, ngen 0-5, loginit)/advance(0-3) calls on one "
                   "programme, half scripts of 2-6 commands over one or two programmes that also replace the stored initial "
                   "state between runs (own / other programme's working containers, fresh containers; all five or a subset), "
                   "assign stored containers to the working attributes, or construct the second programme from the first "
                   "one's working containers; random nested initial containers (empty dicts included), state given or "
-                  "produced by the init operator, behaviour + in-place variant per operator, lbook.rep start, t_max; "
+                  "produced by the init operator, behaviour + in-place variant per operator, lbook.rep start, t_max; in "
+                  "three cases of five the counts (nrep, ngen, advance ngen, t_cur through its setter, t_max) are handed over "
+                  "as numpy integer scalars / 0-d integer arrays / bool (one form throughout or a rotating list), a third of "
+                  "those also set the clock before an extra advance and a quarter end with evolve(ngen=None); "
                   "non-trivial = >=2 replicates in total, ngen>=1 and at least one operator mutating in place; distinct by "
                   "sha1 of the case",
              required_labels=("nrep=0", "ngen=0", "nrep>=2", "has_advance", "two_evolves", "loginit_false",
                               "init_by_operator", "inplace_variant_clear", "inplace_variant_overwrite",
                               "reset_while_working_containers_are_a_stored_start", "second_programme_evolved",
-                              "setstart_work", "setstart_other", "setstart_fresh", "setwork_from_start")),
+                              "setstart_work", "setstart_other", "setstart_fresh", "setwork_from_start",
+                              "evolve_ngen_not_int_and_differs_from_t_max", "evolve_nrep_not_int", "advance_ngen_not_int",
+                              "all_counts_builtin_int", "setclock_effective")),
 ]
